@@ -8,6 +8,48 @@ def elements_of(defn):
                 yield g, v, i, e
 
 
+def collapse_blob_reads(defn, trace):
+    """The library reads the value of a BLOB element up to four times while it builds one update, raising the Read
+    event each time.  The property asks that Read handlers run before the value is published, not how often: a run
+    of invocations of one BLOB element's plain Read handlers that is a whole number of repetitions of that
+    element's handler list counts as one."""
+    owner, base = {}, {}
+    for g, v, i, e in elements_of(defn):
+        if v["kind"] != "BLOB":
+            continue
+        ids = [h["id"] for h in e["handlers"] if h["event"] == "read" and not h.get("coro")]
+        for h in ids:
+            owner[h] = (v["name"], i)
+        base[(v["name"], i)] = ids
+    out, k = [], 0
+    while k < len(trace):
+        e = trace[k]
+        if e[0] == "call" and e[1] in owner:
+            el = owner[e[1]]
+            j = k
+            while j < len(trace) and trace[j][0] == "call" and owner.get(trace[j][1]) == el:
+                j += 1
+            run, b = trace[k:j], base[el]
+            if b and len(run) % len(b) == 0 and [x[1] for x in run] == b * (len(run) // len(b)):
+                out.extend(run[:len(b)])
+            else:
+                out.extend(run)
+            k = j
+        else:
+            out.append(e)
+            k += 1
+    return out
+
+
+def refreshed_value(e):
+    """what the plain Read handlers of element e leave as its value (None: they do not refresh it)"""
+    val = None
+    for h in e["handlers"]:
+        if h["event"] == "read" and not h.get("coro") and h.get("refresh") is not None:
+            val = h["refresh"]
+    return val
+
+
 class C14(core.Prop):
     id = "C14"
     prop_file = "C14.v"
@@ -17,7 +59,7 @@ class C14(core.Prop):
     rule = ("driver definitions with 0-2 handlers per event kind and element (plain / coroutine, vetoing Write handlers, refreshing Read handlers, "
             "one handler on several elements), all element kinds x sequences of client writes, set_value() and direct assignments with changing "
             "and unchanged values, getProperties (reads); non-trivial = sequence in which at least one handler fired; distinct by content")
-    assumptions = ["Read handlers are not attached to BLOB elements (the library reads a BLOB value several times per update)",
+    assumptions = ["Read handlers of BLOB elements are plain ones, and their repeated invocation within one update counts as one (the library reads a BLOB value several times per update)",
                    "client writes name one element each, so one Write event per operation"]
 
     def gen(self, rng, tier):
@@ -28,15 +70,17 @@ class C14(core.Prop):
             for g, v, i, e in elements_of(defn):
                 e["enabled"] = True if rng.random() < 0.9 else e["enabled"]
                 for ev in ("write", "read", "change"):
-                    if ev == "read" and v["kind"] == "BLOB":
-                        continue
                     for _ in range(rng.choice([0, 0, 1, 1, 2])):
                         hid[0] += 1
                         h = {"id": hid[0], "event": ev, "coro": rng.random() < 0.35}
+                        if ev == "read" and v["kind"] == "BLOB":
+                            h["coro"] = False     # the library reads a BLOB value several times per update: plain handlers only
                         if ev == "write" and not h["coro"] and rng.random() < 0.3:
                             h["veto"] = True
-                        if ev == "read" and not h["coro"] and v["kind"] in ("Text", "Number", "Light") and rng.random() < 0.3:
+                        if ev == "read" and not h["coro"] and v["kind"] in ("Text", "Number", "Light", "BLOB") and rng.random() < (0.5 if v["kind"] == "BLOB" else 0.3):
                             h["refresh"] = drvgen.random_value(rng, v["kind"])
+                            if v["kind"] == "BLOB" and h["refresh"] is None:
+                                h["refresh"] = [[1, 2, 3, rng.randrange(256)], ".r%d" % hid[0]]
                         e["handlers"].append(h)
             vecs = drvgen.all_vectors(defn)
             ops = []
@@ -76,7 +120,7 @@ class C14(core.Prop):
         if not isinstance(mout, list):
             return "model rejected the input"
         traces, st, allwf = mout
-        d = drvcmp.compare_ops(c["ops"], obs["ops"], traces)
+        d = drvcmp.compare_ops(c["ops"], [dict(o, trace=collapse_blob_reads(c["defn"], o["trace"])) for o in obs["ops"]], traces)
         if d:
             return d
         if drvcmp.model_state(st) != obs["state"]:
@@ -96,6 +140,9 @@ class C14(core.Prop):
             sync, after = o["trace"], o["after"]
             if any(e[0] == "ran" for e in sync):
                 return "coroutine-ran-early: a coroutine handler ran before the operation returned"
+            why = self.read_before_publication(vecs, sync)
+            if why:
+                return why
             target = None
             if op[0] in ("assign", "setvalue"):
                 target = (op[1], op[2], drvgen.canon_value(vecs[op[1]][1]["kind"], drvimpl_value(vecs[op[1]][1]["kind"], op[3])))
@@ -157,6 +204,40 @@ class C14(core.Prop):
                     elif ch_calls or ch_ran:
                         return "change-spurious: Change raised although the value did not change"
             prev_state = o["state"]
+        return None
+
+    def read_before_publication(self, vecs, sync):
+        """an update lists, for every element whose plain Read handlers refresh it, the refreshed value - and those
+        handlers have run before it (text, light and BLOB elements; numbers are rendered, see C10)"""
+        import base64
+        seen = set()
+        for e2 in sync:
+            if e2[0] == "call":
+                seen.add(e2[1])
+            if e2[0] != "pub" or not e2[1]["kind"].startswith("set"):
+                continue
+            vname = e2[1]["attrs"].get("name")
+            if vname not in vecs:
+                continue
+            g, v = vecs[vname]
+            if v["kind"] not in ("Text", "Light", "BLOB"):
+                continue
+            listed = {c["attrs"].get("name"): c for c in (e2[1]["children"] or [])}
+            for e in v["elements"]:
+                val = refreshed_value(e)
+                if val is None or e["name"] not in listed:
+                    continue
+                ch = listed[e["name"]]
+                hs = [h["id"] for h in e["handlers"] if h["event"] == "read" and not h.get("coro")]
+                if not set(hs) <= seen:
+                    return "read-late: %s.%s was published before its Read handlers %s had run" % (vname, e["name"], hs)
+                if v["kind"] == "BLOB":
+                    got = (ch["value"] or "", ch["attrs"].get("format"), ch["attrs"].get("size"))
+                    want = (base64.b64encode(bytes(val[0])).decode(), val[1], str(len(val[0])))
+                else:
+                    got, want = (ch["value"] or "").strip(), (val or "").strip()
+                if got != want:
+                    return "read-stale: the update lists %s.%s as %s, its Read handler refreshed it to %s" % (vname, e["name"], str(got)[:60], str(want)[:60])
         return None
 
     def nontrivial(self, c, obs):
